@@ -306,6 +306,7 @@ fn expected_misuse(m: &Misuse, s: &Scn, node: usize, already_disconnected: &[usi
             }
         }
         Misuse::AdvanceMissingInput => "InvalidRequest(pending=0,running=true)",
+        Misuse::AdvancePartialInputs => "InvalidRequest",
         Misuse::DisconnectHandle(h) => {
             if *h < np && !local(*h) && !already_disconnected.contains(h) {
                 "Ok"
@@ -347,6 +348,7 @@ fn run_misuse(s: &Scn, out: &mut Outcome) {
     // results of the misuse calls
     let mut twin = s.clone();
     let mut drop_idx = vec![];
+    let mut rejected_partial = 0;
     let mut disconnected: Vec<usize> = vec![];
     for (ai, a) in s.actions.iter().enumerate() {
         let res = w.nodes[a.node].action_log.iter().find(|(i, _)| *i == ai).map(|x| x.1.clone());
@@ -368,6 +370,21 @@ fn run_misuse(s: &Scn, out: &mut Outcome) {
                         return;
                     }
                     twin.actions[ai].act = Act::BarePoll;
+                    continue;
+                }
+                if let Misuse::AdvancePartialInputs = m {
+                    if res == "skipped" {
+                        // fewer than two local players, not Running, or inputs of a stalled tick pending
+                        twin.actions[ai].act = Act::BarePoll;
+                        continue;
+                    }
+                    if res != "InvalidRequest" {
+                        out.violate(v("misuse call did not return the documented error", format!("advance_frame with one local input missing returned {res}")));
+                        return;
+                    }
+                    // the rejected call only polled; the inputs it was given stay valid for the retry
+                    twin.actions[ai].act = Act::BarePoll;
+                    rejected_partial += 1;
                     continue;
                 }
                 let ok = match want {
@@ -419,6 +436,7 @@ fn run_misuse(s: &Scn, out: &mut Outcome) {
             return;
         }
     }
+    out.count("rejected_advance_with_partial_inputs", rejected_partial);
     out.nontrivial = !drop_idx.is_empty() || twin.actions.iter().any(|a| a.act == Act::BarePoll);
 }
 
@@ -546,7 +564,7 @@ pub fn check(ctx: &Ctx) -> i32 {
         }
         s.mp = rr.pick(&[0usize, 2, 8]);
         let np = s.num_players();
-        let node = rr.below(s.peers.len() as u64) as usize;
+        let node = if s.peers[0].len() >= 2 && rr.chance(0.7) { 0 } else { rr.below(s.peers.len() as u64) as usize };
         let remote_h = (0..np).find(|h| !s.peers[node].contains(h)).unwrap();
         let local_h = s.peers[node][0];
         let n_acts = 5;
@@ -555,7 +573,13 @@ pub fn check(ctx: &Ctx) -> i32 {
             let when = Trigger::AtFrame(20 + k * 40 + rr.below(30) as i32);
             let m = match rr.below(8) {
                 0 => Misuse::InputForHandle(rr.pick(&[remote_h, np, np + 5, 99])),
-                1 => Misuse::AdvanceMissingInput,
+                1 => {
+                    if s.peers[node].len() >= 2 {
+                        Misuse::AdvancePartialInputs
+                    } else {
+                        Misuse::AdvanceMissingInput
+                    }
+                }
                 2 => Misuse::DisconnectHandle(rr.pick(&[local_h, np + 7, 99])),
                 3 => Misuse::SetDelayHandle(rr.pick(&[remote_h, np, 99]), rr.below(5) as usize),
                 4 => Misuse::StatsHandle(rr.pick(&[local_h, np + 7, 99])),
@@ -599,7 +623,7 @@ pub fn check(ctx: &Ctx) -> i32 {
     extra.insert("enumerated_subspace".into(), json!({"menu": format!("{:?}", m), "max_length": maxlen, "sequences": total, "start_methods": 3, "exhaustive": true}));
     let meta = Meta {
         level: "exploration",
-        rule: format!("bounded-exhaustive: all {total} sequences of <= {maxlen} builder calls from a menu of {} calls over small value domains, each followed by each of the three start_* methods, compared with a reference validity predicate written from the documentation (which builder call fails, whether start succeeds, error kind InvalidRequest); every accepted session is polled/advanced (200/40/12 frames depending on sequence length) on a simulated socket without panicking. Run-time misuse: 5 scripted calls (input for a remote/spectator/unknown handle, advance_frame with inputs missing, disconnect of a local/unknown/already disconnected player, delay change and stats for the wrong player type or unknown handle) at random points of random valid runs (also while the session is still synchronising) must return the documented error, and the run must be identical (request lists, events per address, errors, states of every node) to the twin run in which the failing calls are omitted (a bare poll_remote_clients() replacing a failing advance_frame); the same for SyncTestSession. Non-trivial: enumeration jobs; misuse runs in which at least one call was rejected. Distinct: job.", m.len()),
+        rule: format!("bounded-exhaustive: all {total} sequences of <= {maxlen} builder calls from a menu of {} calls over small value domains, each followed by each of the three start_* methods, compared with a reference validity predicate written from the documentation (which builder call fails, whether start succeeds, error kind InvalidRequest); every accepted session is polled/advanced (200/40/12 frames depending on sequence length) on a simulated socket without panicking. Run-time misuse: 5 scripted calls (input for a remote/spectator/unknown handle, advance_frame with all or just one local input missing (the inputs already given must stay valid for the retry), disconnect of a local/unknown/already disconnected player, delay change and stats for the wrong player type or unknown handle) at random points of random valid runs (also while the session is still synchronising) must return the documented error, and the run must be identical (request lists, events per address, errors, states of every node) to the twin run in which the failing calls are omitted (a bare poll_remote_clients() replacing a failing advance_frame); the same for SyncTestSession. Non-trivial: enumeration jobs; misuse runs in which at least one call was rejected. Distinct: job.", m.len()),
         assumptions: vec!["the reference predicate encodes the rustdoc of SessionBuilder and docs/sessions.md".into(), "input delay and prediction window within 0..=16".into(), "held on the executions produced, not verified".into()],
         floor_nontrivial: if ctx.quick() { 200 } else { 3000 },
         exhaustive: None,
